@@ -463,6 +463,17 @@ def monitor_c01(se, stats):
                 uborn.setdefault(k, i)
         if prev is not None:
             f = st["op"].split()
+            # a queue that holds messages goes away only when something deletes it: queue.delete, the end of the
+            # connection that owns it (exclusive), the loss of its last consumer (auto-delete), a restart (not durable)
+            subs0 = [x.strip().split() for x in st["op"][6:].split("|")] if f[0] == "MULTI" else [f]
+            for qn, pq in prev["queues"].items():
+                if qn in cur["queues"] or not pq["ready"]:
+                    continue
+                explained = pq["ad"] or pq["excl"] or st["op"] == "RESTART" or \
+                    any(g and g[0] == "QDEL" and len(g) > 3 and de(g[3]) == qn for g in subs0)
+                stats["queues_gone"] = stats.get("queues_gone", 0) + 1
+                if not explained:
+                    viol.append({"step": i, "what": "queue %s vanished with its waiting messages %s although nothing deleted it (not auto-delete, not exclusive; after `%s`)" % (qn, pq["ready"], st["op"])})
             hp, hc = _held(prev, qborn, uborn, i), _held(cur, qborn, uborn, i)
             dels = _deliveries(st, prev)
             for qn in hc:
@@ -699,6 +710,14 @@ def monitor_c14(se, stats):
                 viol.append({"step": i, "what": "queue %s lists consumers %s but the live consumers on channels are %s (after `%s`)" % (
                     qn, sorted(q["consumers"]), sorted(want.get(qn, [])), st["op"])})
         if prev is not None:
+            # a queue that has consumers is deleted only by queue.delete (which cancels them) or together with the last of
+            # them: a step that ends no consumer of the queue and does not delete it leaves it in place
+            subs14 = [x.strip().split() for x in st["op"][6:].split("|")] if f[0] == "MULTI" else [f]
+            ends_something = any(g and g[0] in ("QDEL", "CANCEL", "CHCLOSE", "CHCLOSEOK", "DROP", "CLOSE", "CLOSEOK", "RESTART", "IDLE", "RAW", "BADM") for g in subs14) or \
+                any(":channel.close(" in x or ":connection.close(" in x or x.endswith(":GONE") for x in st["frames"])
+            for qn, q in prev["queues"].items():
+                if q["consumers"] and qn not in cur["queues"] and not ends_something:
+                    viol.append({"step": i, "what": "queue %s was deleted while it had consumers %s and nothing ended them (after `%s`)" % (qn, q["consumers"], st["op"])})
             ended_conn = None
             if f[0] in ("DROP", "CLOSE", "CLOSEOK"):
                 ended_conn = int(f[1])
